@@ -1726,66 +1726,33 @@ fn alias_of(p: &Program, mi: usize, a: &Path) -> Option<usize> {
     }
 }
 
-/// Could `name` mean something in a scope of module `mi` *without* the import of
-/// that scope that introduces it?  (An over-approximation read off the program:
-/// `pkg`, a registered runtime module, a child module, an item, a parameter or a
-/// local anywhere in the module, or the alias of a second import somewhere in
-/// the module.)  When it cannot, a path starting with it can only be resolved
-/// through that import: the order of the two imports must not matter.
-fn maybe_visible_otherwise(p: &Program, mi: usize, name: usize) -> bool {
-    if name == PKG || p.rt.iter().any(|r| r.name == name) {
-        return true;
-    }
-    if (0..p.mods.len()).any(|c| p.mods[c].parent == Some(mi) && p.mods[c].ident == name) {
-        return true;
-    }
-    fn walk(p: &Program, mi: usize, b: &Block, name: usize, vis: &mut bool, aliases: &mut usize) {
-        for ip in flatten_all(&b.imports) {
-            if alias_of(p, mi, &ip) == Some(name) {
-                *aliases += 1;
-            }
-        }
-        for s in &b.stmts {
-            match s {
-                Stmt::Let(x, _) | Stmt::Param(x, _) if *x == name => *vis = true,
-                Stmt::Block(_, inner) => walk(p, mi, inner, name, vis, aliases),
-                _ => {}
-            }
-        }
-    }
-    let mut vis = false;
-    let mut aliases = 0usize;
+/// Names that mean something in the scope of module `mi` without any import of
+/// that scope: `pkg`, registered runtime modules (root scope), the module's
+/// items and child modules.
+fn module_visible_names(p: &Program, mi: usize) -> Vec<usize> {
+    let mut out = vec![PKG];
+    out.extend(p.rt.iter().map(|r| r.name));
+    out.extend((0..p.mods.len()).filter(|&c| p.mods[c].parent == Some(mi)).map(|c| p.mods[c].ident));
     for it in &p.mods[mi].items {
         match it {
-            ItemD::Fn { name: n, body, .. } => {
-                if *n == name {
-                    vis = true;
-                }
-                if let Some(b) = body {
-                    walk(p, mi, b, name, &mut vis, &mut aliases);
-                }
-            }
-            ItemD::Const { name: n, .. } | ItemD::Ty { name: n, .. } if *n == name => vis = true,
-            ItemD::Imports(t) => {
-                for ip in flatten_all(t) {
-                    if alias_of(p, mi, &ip) == Some(name) {
-                        aliases += 1;
-                    }
-                }
-            }
+            ItemD::Fn { name, .. } | ItemD::Const { name, .. } | ItemD::Ty { name, .. } => out.push(*name),
             _ => {}
         }
     }
-    vis || aliases >= 2
+    out
 }
 
 /// like `alias_prefix_pair`, but only pairs whose shared name may also mean
-/// something without the sibling import (the shape of the open finding
-/// `C13-import-order-sibling-alias`)
-fn alias_prefix_pair_visible(p: &Program, mi: usize, ps: &[Path]) -> bool {
+/// something without the sibling import (`visible`: an over-approximation of
+/// the names the scope sees otherwise — its own declarations wherever they
+/// stand, everything enclosing scopes declare or import) — the shape of the open
+/// finding `C13-import-order-sibling-alias`.  When the shared name cannot be
+/// seen otherwise, the dependent path can only be resolved through the sibling
+/// import: the order of the two must not matter.
+fn alias_prefix_pair_visible(p: &Program, mi: usize, ps: &[Path], visible: &[usize]) -> bool {
     for (i, a) in ps.iter().enumerate() {
         for (j, b) in ps.iter().enumerate() {
-            if i != j && b.len() > 1 && b[0] != SUPER && alias_of(p, mi, a) == Some(b[0]) && maybe_visible_otherwise(p, mi, b[0]) {
+            if i != j && b.len() > 1 && b[0] != SUPER && alias_of(p, mi, a) == Some(b[0]) && visible.contains(&b[0]) {
                 return true;
             }
         }
@@ -1850,13 +1817,23 @@ fn probe_infos(p: &Program) -> Sites {
     let mut with_param: Vec<String> = vec![];
     let mut seq = 0usize;
     #[allow(clippy::too_many_arguments)]
-    fn walk(p: &Program, mi: usize, b: &Block, ctx: &str, scope: &str, depth: usize, next_block: &mut usize, seq: &mut usize, out: &mut BTreeMap<usize, ProbeInfo>, decls: &mut BTreeMap<(String, String), i64>, let_seq: &mut BTreeMap<(String, String), usize>, pair_scopes: &mut Vec<String>, visible_pair_scopes: &mut Vec<String>, imports: &mut Vec<(String, Path, usize)>) {
+    fn walk(p: &Program, mi: usize, b: &Block, ctx: &str, scope: &str, depth: usize, next_block: &mut usize, seq: &mut usize, out: &mut BTreeMap<usize, ProbeInfo>, decls: &mut BTreeMap<(String, String), i64>, let_seq: &mut BTreeMap<(String, String), usize>, pair_scopes: &mut Vec<String>, visible_pair_scopes: &mut Vec<String>, imports: &mut Vec<(String, Path, usize)>, outer: &[usize]) {
         if alias_prefix_pair(p, mi, &flatten_all(&b.imports)) {
             pair_scopes.push(scope.to_string());
         }
-        if alias_prefix_pair_visible(p, mi, &flatten_all(&b.imports)) {
+        // what this scope sees without its own imports: its locals (wherever they
+        // stand) and everything the enclosing scopes declare or import
+        let mut visible: Vec<usize> = outer.to_vec();
+        for s in &b.stmts {
+            if let Stmt::Let(x, _) | Stmt::Param(x, _) = s {
+                visible.push(*x);
+            }
+        }
+        if alias_prefix_pair_visible(p, mi, &flatten_all(&b.imports), &visible) {
             visible_pair_scopes.push(scope.to_string());
         }
+        visible.extend(flatten_all(&b.imports).iter().filter_map(|ip| alias_of(p, mi, ip)));
+        let outer: &[usize] = &visible;
         for ip in flatten_all(&b.imports) {
             imports.push((scope.to_string(), ip, *seq + 1));
         }
@@ -1869,7 +1846,7 @@ fn probe_infos(p: &Program) -> Sites {
                 Stmt::Block(_, inner) => {
                     let id = *next_block;
                     *next_block += 1;
-                    walk(p, mi, inner, ctx, &format!("{scope}.$b{id}"), depth + 1, next_block, seq, out, decls, let_seq, pair_scopes, visible_pair_scopes, imports);
+                    walk(p, mi, inner, ctx, &format!("{scope}.$b{id}"), depth + 1, next_block, seq, out, decls, let_seq, pair_scopes, visible_pair_scopes, imports, outer);
                 }
                 Stmt::Let(x, t) => {
                     decls.entry((scope.to_string(), p.names[*x].clone())).or_insert(*t);
@@ -1894,9 +1871,11 @@ fn probe_infos(p: &Program) -> Sites {
         if alias_prefix_pair(p, mi, &module_imports) {
             pair_scopes.push(mn[mi].clone());
         }
-        if alias_prefix_pair_visible(p, mi, &module_imports) {
+        let mut module_visible = module_visible_names(p, mi);
+        if alias_prefix_pair_visible(p, mi, &module_imports, &module_visible) {
             visible_pair_scopes.push(mn[mi].clone());
         }
+        module_visible.extend(module_imports.iter().filter_map(|ip| alias_of(p, mi, ip)));
         for ip in &module_imports {
             imports.push((mn[mi].clone(), ip.clone(), 0));
         }
@@ -1912,7 +1891,7 @@ fn probe_infos(p: &Program) -> Sites {
                             with_param.push(below.clone());
                             below = format!("{below}#{t}");
                         }
-                        walk(p, mi, b, &below, &fscope, 0, &mut next_block, &mut seq, &mut out, &mut decls, &mut let_seq, &mut pair_scopes, &mut visible_pair_scopes, &mut imports);
+                        walk(p, mi, b, &below, &fscope, 0, &mut next_block, &mut seq, &mut out, &mut decls, &mut let_seq, &mut pair_scopes, &mut visible_pair_scopes, &mut imports, &module_visible);
                     }
                 }
                 ItemD::Const { name, tag } | ItemD::Ty { name, tag } => {
